@@ -17,7 +17,7 @@ CLAIMED = {
          "arguments are non-nil Objects (undefined is the singleton); dynamic method calls on Objects of kinds outside the vocabulary return arbitrary results and do not panic; sort.Slice, strconv, fmt assumed panic-free; strings.Repeat/bytes.Repeat preconditions are obligations"),
  "C20": ("Scalar values cross the Go boundary unchanged: ToObject(ToInterface(o)) is o (same type and value, bit equality for floats) for int, uint, float, char, bool, string and undefined; ToInterface(ToObject(v)) is v for int64, uint64, float64, rune, bool, string and nil; int, uint, uintptr, byte and float32 convert to the uGO value with the same numeric value; lemmas over the real ToObject/ToInterface bodies. ToObject, ToObjectAlt and ToInterface are panic-free (safety sweep, nested values through the functions' own contracts). Not decided: round trips of bytes, arrays and maps (need inductive lemmas over nesting), ToObjectAlt value clauses, the numeric helper conversions, error for unsupported types.",
          "registry converters trusted (assumed non-nil and panic-free); sync locks no-ops"),
- "C02": ("Only the call-argument binding clause of the statement: entering a compiled function binds fixed parameters to the arguments in order, packs the remaining arguments of a variadic function into an array and leaves every other local undefined - proved for calls from Go (VM.initLocals) and for in-script calls without spread (VM.xOpCallCompiled, flags == 0) against the same clauses, including the frame re-use of a self-recursive tail call. Everything else in the statement (evaluation order, scoping, closures, compound assignment, loops, spread calls, destructuring) is not covered; the tail-call-through-POP;RETURN behaviour (returns the callee's value where ordinary recursion returns undefined) is a known open issue outside the functions under contract.",
+ "C02": ("Only the call-argument binding clause of the statement: entering a compiled function binds fixed parameters to the arguments in order, packs the remaining arguments of a variadic function into an array and leaves every other local undefined - proved for calls from Go (VM.initLocals) and for in-script calls without spread (VM.xOpCallCompiled, flags == 0) against the same clauses, including the frame re-use of a self-recursive tail call. Everything else in the statement (evaluation order, scoping, closures, compound assignment, loops, spread calls, destructuring) is not covered; The tail-call clause is stated on the same function: a frame is re-used only when the instruction after the call is RETURN; the CALL; POP; RETURN shape (the discarded self-call returns the callee's value where ordinary recursion returns undefined) fails that clause and is the one open known finding (KNOWN-FINDING line, see known_findings.json: the repair conflicts with an existing test).",
          "call preconditions vmCallOK (callee below the arguments, frame fits the stack, a function calling itself has its locals below the callee); one parked obligation (variadic + tail call) listed in the evidence"),
  "C07": ("Installing bytecode, clearing a VM and setting up frame 0 are functions of their inputs only and never write the Bytecode: SetBytecode, Clear (every stack slot nil, cache and globals dropped), initCurrentFrame, clearCurrentFrame, each with a proved frame clause listing exactly the VM fields written. Not decided: the Run prologue as a whole (two-state non-interference), OP_CLOSURE, slots above sp / frames above frameIndex never being read before written.",
          "sync locks no-ops; vmPool.clear modelled through the map component"),
